@@ -1,0 +1,131 @@
+//! Verification hooks. Only compiled with `--cfg helgoboss_midi_verif` (and the `std` feature).
+//!
+//! Provides a drop-in replacement for `std::time::Instant` whose clock is a thread-local
+//! nanosecond counter driven by the verification harness, so that histories fed to the polling
+//! scanner can contain explicit time steps. Without the cfg flag this module does not exist and
+//! the crate is unchanged.
+use core::fmt;
+use core::ops::{Add, AddAssign, Sub, SubAssign};
+use core::time::Duration;
+use std::cell::Cell;
+
+thread_local! {
+    static NOW_NANOS: Cell<u64> = Cell::new(0);
+    static DEBUG_AGE_CAP: Cell<u64> = Cell::new(u64::MAX);
+}
+
+/// Sets the current time of this thread's mock clock (nanoseconds since its epoch).
+pub fn set_now_nanos(nanos: u64) {
+    NOW_NANOS.with(|n| n.set(nanos));
+}
+
+/// Advances this thread's mock clock (saturating).
+pub fn advance_nanos(nanos: u64) {
+    NOW_NANOS.with(|n| n.set(n.get().saturating_add(nanos)));
+}
+
+/// Returns the current time of this thread's mock clock.
+pub fn now_nanos() -> u64 {
+    NOW_NANOS.with(|n| n.get())
+}
+
+/// Ages printed by `Debug` are capped at this value (default: no cap).
+pub fn set_debug_age_cap(cap: u64) {
+    DEBUG_AGE_CAP.with(|c| c.set(cap));
+}
+
+fn duration_to_nanos(d: Duration) -> Option<u64> {
+    let n = d.as_nanos();
+    if n > u64::MAX as u128 {
+        None
+    } else {
+        Some(n as u64)
+    }
+}
+
+/// Mock of `std::time::Instant` backed by the thread-local clock.
+#[derive(Copy, Clone, Eq, PartialEq, Ord, PartialOrd, Hash)]
+pub struct Instant(u64);
+
+impl Instant {
+    pub fn now() -> Instant {
+        Instant(now_nanos())
+    }
+
+    /// Nanoseconds since the epoch of the mock clock.
+    pub fn as_nanos(&self) -> u64 {
+        self.0
+    }
+
+    pub fn elapsed(&self) -> Duration {
+        Instant::now().duration_since(*self)
+    }
+
+    pub fn duration_since(&self, earlier: Instant) -> Duration {
+        Duration::from_nanos(self.0.saturating_sub(earlier.0))
+    }
+
+    pub fn saturating_duration_since(&self, earlier: Instant) -> Duration {
+        self.duration_since(earlier)
+    }
+
+    pub fn checked_duration_since(&self, earlier: Instant) -> Option<Duration> {
+        self.0.checked_sub(earlier.0).map(Duration::from_nanos)
+    }
+
+    pub fn checked_add(&self, duration: Duration) -> Option<Instant> {
+        self.0.checked_add(duration_to_nanos(duration)?).map(Instant)
+    }
+
+    pub fn checked_sub(&self, duration: Duration) -> Option<Instant> {
+        self.0.checked_sub(duration_to_nanos(duration)?).map(Instant)
+    }
+}
+
+impl Add<Duration> for Instant {
+    type Output = Instant;
+
+    fn add(self, other: Duration) -> Instant {
+        self.checked_add(other)
+            .expect("overflow when adding duration to instant")
+    }
+}
+
+impl AddAssign<Duration> for Instant {
+    fn add_assign(&mut self, other: Duration) {
+        *self = *self + other;
+    }
+}
+
+impl Sub<Duration> for Instant {
+    type Output = Instant;
+
+    fn sub(self, other: Duration) -> Instant {
+        self.checked_sub(other)
+            .expect("overflow when subtracting duration from instant")
+    }
+}
+
+impl SubAssign<Duration> for Instant {
+    fn sub_assign(&mut self, other: Duration) {
+        *self = *self - other;
+    }
+}
+
+impl Sub<Instant> for Instant {
+    type Output = Duration;
+
+    fn sub(self, other: Instant) -> Duration {
+        self.duration_since(other)
+    }
+}
+
+/// Prints the *age* of the instant (capped), not its absolute value, so that two scanner states
+/// which behave identically from now on have the same `Debug` representation.
+impl fmt::Debug for Instant {
+    fn fmt(&self, f: &mut fmt::Formatter) -> fmt::Result {
+        let age = now_nanos().saturating_sub(self.0);
+        let cap = DEBUG_AGE_CAP.with(|c| c.get());
+        write!(f, "Instant(age={})", age.min(cap))
+    }
+}
